@@ -361,10 +361,15 @@ def run(ctx):
                 okn = False
         ctx.check("R29.4", f"{gp.key}::noise term is diffamp_i @ xi_i", okn, "; ".join(detn) or (src(noise[0].value) if noise else None), gp)
         cat = [st for st in walk_no_nested(gp.node) if isinstance(st, ast.Assign) and isinstance(st.value, ast.Call) and call_name(st.value) == "concatenate"]
-        okc = len(cat) == 1 and arrn is not None and src(cat[0].targets[0]) == arrn and isinstance(cat[0].value.args[0], (ast.List, ast.Tuple)) \
-            and len(cat[0].value.args[0].elts) == 2 and src(cat[0].value.args[0].elts[0]).startswith(x0_n + "[") and src(cat[0].value.args[0].elts[1]) == arrn
-        ctx.check("R29.4", f"{gp.key}::the initial state is prepended to the noise terms", okc, src(cat[0].value) if cat else None, gp)
-        loops = [n_ for n_ in body if isinstance(n_, ast.FunctionDef)]
+        mine = [st for st in cat if arrn is not None and src(st.targets[0]) == arrn and isinstance(st.value.args[0], (ast.List, ast.Tuple))
+                and len(st.value.args[0].elts) == 2 and arrn in [src(e) for e in st.value.args[0].elts]]
+        if len(mine) == 1:
+            okc = src(mine[0].value.args[0].elts[0]).startswith(x0_n + "[") and src(mine[0].value.args[0].elts[1]) == arrn
+        else:
+            okc = None
+        ctx.check("R29.4", f"{gp.key}::the initial state is prepended to the noise terms", okc, src(mine[0].value) if mine else None, gp)
+        fl0 = [c for c in ast.walk(gp.node) if isinstance(c, ast.Call) and call_name(c) == "fori_loop"]
+        loops = [n_ for n_ in body if isinstance(n_, ast.FunctionDef) and any(len(c.args) >= 3 and src(c.args[2]) == n_.name for c in fl0)]
         okl = None
         det = None
         if len(loops) == 1 and len(loops[0].args.args) == 2:
@@ -381,7 +386,64 @@ def run(ctx):
         ctx.check("R29.4", f"{gp.key}::loop adds drift_i @ res_i to res_(i+1)", okl, det, gp)
         fl = [c for c in ast.walk(gp.node) if isinstance(c, ast.Call) and call_name(c) == "fori_loop"]
         okf = len(fl) == 1 and len(fl[0].args) == 4 and src(fl[0].args[0]) == "0" and src(fl[0].args[2]) == (loops[0].name if loops else "") and src(fl[0].args[3]) == arrn
+        if not fl:
+            okf = None  # another loop idiom (scan, associative_scan): not this rule's business
         ctx.check("R29.4", f"{gp.key}::the recurrence starts at row 0 and runs over the prepared array", okf, src(fl[0]) if fl else None, gp)
+        # a parallel prefix formulation composes affine maps x -> D x + b: the order visible in the offset fixes the order of the matrices
+        for c in ast.walk(gp.node):
+            if not (isinstance(c, ast.Call) and call_name(c) == "associative_scan" and c.args and isinstance(c.args[0], ast.Name)):
+                continue
+            comp = [f_ for f_ in body if isinstance(f_, ast.FunctionDef) and f_.name == c.args[0].id]
+            key = f"{gp.key}::associative composition of the affine transitions"
+            if len(comp) != 1 or len(comp[0].args.args) != 2:
+                ctx.und("R29.4", key, "compose function not found", gp, c)
+                continue
+            f_, g_ = [a.arg for a in comp[0].args.args]
+            unp = {}
+            for st in walk_no_nested(comp[0]):
+                if isinstance(st, ast.Assign) and isinstance(st.targets[0], ast.Tuple) and isinstance(st.value, (ast.Tuple, ast.Name)):
+                    tg = st.targets[0].elts
+                    vs = st.value.elts if isinstance(st.value, ast.Tuple) else [st.value]
+                    if len(tg) == len(vs):
+                        for t_, v_ in zip(tg, vs):
+                            if isinstance(t_, ast.Tuple) and len(t_.elts) == 2 and isinstance(v_, ast.Name):
+                                unp[v_.id] = (src(t_.elts[0]), src(t_.elts[1]))
+                    elif len(tg) == 2 and isinstance(st.value, ast.Name):
+                        unp[st.value.id] = (src(tg[0]), src(tg[1]))
+            rr = [r for r in walk_no_nested(comp[0]) if isinstance(r, ast.Return) and isinstance(r.value, ast.Tuple) and len(r.value.elts) == 2]
+            if f_ not in unp or g_ not in unp or len(rr) != 1:
+                ctx.und("R29.4", key, "shape of the compose function not recognised", gp, comp[0])
+                continue
+            (df, bf), (dg, bg) = unp[f_], unp[g_]
+            A, B = rr[0].value.elts
+
+            def mats(e):
+                """ordered list of matrix names in a product chain a @ b / jnp.matmul(a, b)"""
+                if isinstance(e, ast.BinOp) and isinstance(e.op, ast.MatMult):
+                    l_, r_ = mats(e.left), mats(e.right)
+                    return None if l_ is None or r_ is None else l_ + r_
+                if isinstance(e, ast.Call) and call_name(e) == "matmul" and len(e.args) == 2:
+                    l_, r_ = mats(e.args[0]), mats(e.args[1])
+                    return None if l_ is None or r_ is None else l_ + r_
+                if isinstance(e, ast.Subscript):
+                    return mats(e.value)
+                if isinstance(e, ast.Name):
+                    return [e.id]
+                return None
+            # which map is applied first?  the offset of the composition is D_second b_first + b_second
+            first = None
+            for x in ast.walk(B):
+                ch = mats(x) if isinstance(x, (ast.BinOp, ast.Call)) else None
+                if ch and len(ch) == 2 and ch in ([dg, bf], [df, bg]):
+                    first = "f" if ch == [dg, bf] else "g"
+            prod = mats(A)
+            if first is None or prod is None or sorted(prod) != sorted([df, dg]):
+                ctx.und("R29.4", key, f"offset `{src(B)}` / matrix `{src(A)}` not recognised", gp, rr[0])
+                continue
+            want = [dg, df] if first == "f" else [df, dg]
+            ctx.check("R29.4", key, prod == want,
+                      f"the offset `{src(B)}` applies `{f_ if first == 'f' else g_}` first, so the composed matrix is {' @ '.join(want)}; found {' @ '.join(prod)}"
+                      " (equal only for commuting drifts)", gp, rr[0])
     sg = fn("scalar_gauss_markov_process")
     if sg is not None:
         rr = [r for r in walk_no_nested(sg.node) if isinstance(r, ast.Return)]
